@@ -39,7 +39,7 @@ theorem SubstCert.own_pin_src (j x k l' : Nat) (hm : map.getD j none = some x)
   obtain ⟨hl', hr', hk'⟩ := ct.wf'.fwdIn x hx k l' hp
   rcases ct.line_split l' hl' with hlt | ⟨t, ht, e⟩
   · right
-    obtain ⟨k0, hk0⟩ := ct.host_reader_own l' x hlt hr' (ct.mapGe j x hm)
+    obtain ⟨k0, hk0⟩ := ct.ownIns x k l' (ct.mapGe j x hm) hp hlt
     obtain ⟨inn, r, rp, hinn, htg, e1, e2⟩ := ct.inWire k0 l' hk0
     have er : r = x := e1.symm.trans hr'
     have ep : rp = k := e2.symm.trans hk'
@@ -65,7 +65,8 @@ theorem SubstCert.pin_of_copied (i xd xr : Nat) (hi : i < m.net.lines.size)
   obtain ⟨t, ht, e, hline⟩ := ct.copy_of i hi xd xr h1 h2
   refine ⟨t, ht, e, ?_⟩
   have hlt : h.net.lines.size + t < h'.net.lines.size := by rw [ct.lsize]; omega
-  have b := (ct.wf'.back _ hlt).2.2.2
+  have b : (h'.net.node (h'.net.line (h.net.lines.size + t)).reader).ins.getD (h'.net.line (h.net.lines.size + t)).rpin none =
+      some (h.net.lines.size + t) := ct.backR _ hlt (Or.inl (Nat.le_add_right _ _))
   rw [hline] at b
   exact b
 
@@ -83,7 +84,8 @@ theorem SubstCert.pin_of_input (inn i0 ll xr : Nat) (hin : inn ∈ sh.inPorts) (
   have hlt : ll < h'.net.lines.size := by
     have := (ct.hwf.fwdIn c ct.hc _ ll hll).1
     rw [ct.lsize]; omega
-  have b := (ct.wf'.back ll hlt).2.2.2
+  have b : (h'.net.node (h'.net.line ll).reader).ins.getD (h'.net.line ll).rpin none = some ll :=
+    ct.backR ll hlt (Or.inr (ct.hwf.ptsBack_of_pin c _ ll ct.hc hll))
   rw [e1, e2] at b
   rcases inTarget_cases htg with ⟨_, i0', hh', hmr, hrp⟩ | ⟨hne, _, _⟩
   · have : i0' = i0 := by rw [hh] at hh'; exact (Option.some.inj (Option.some.inj hh')).symm
